@@ -415,7 +415,7 @@ pub fn c06(rng: &mut Rng, thorough: bool, idx: u64) -> Spec {
 
 /// One statement of a known class (by construction). Returns (class, sql).
 fn classed_statement(rng: &mut Rng, tag: &str) -> (&'static str, String) {
-    match rng.below(40) {
+    match rng.below(46) {
         0 => ("plain_read", format!("SELECT '{}'", tag)),
         1 => ("plain_read", format!("SELECT '{}' FROM t WHERE x = {}", tag, rng.range(0, 9))),
         2 => ("plain_read", format!("SELECT '{}' FROM a JOIN b ON a.id = b.a_id WHERE b.v > 2 ORDER BY 1 LIMIT 5", tag)),
@@ -455,6 +455,14 @@ fn classed_statement(rng: &mut Rng, tag: &str) -> (&'static str, String) {
         36 => ("multi_with_write", format!("SELECT '{}'; INSERT INTO t (v) VALUES ('x')", tag)),
         37 => ("multi_with_write", format!("UPDATE t SET v = 'y'; SELECT '{}'", tag)),
         38 => ("multi_reads", format!("SELECT 1; SELECT '{}'", tag)),
+        // writes whose shard cannot be inferred (they assign the sharding key, or touch two keys)
+        42 => ("write", format!("UPDATE data SET id = 5, v = '{}' WHERE id = 6", tag)),
+        43 => ("write", format!("INSERT INTO data (id, v) VALUES (1, '{}'), (2, 'x'), (3, 'y'), (4, 'z')", tag)),
+        // a read and a write on keys of different partitions in one message
+        44 => ("multi_with_write", format!("SELECT '{}' FROM data WHERE id = 1; UPDATE data SET v = 'x' WHERE id = 2; UPDATE data SET v = 'y' WHERE id = 3", tag)),
+        45 => ("multi_with_write", format!("SELECT '{}' FROM data WHERE id = 7; DELETE FROM data WHERE id = 8", tag)),
+        40 => ("multi_lock_then_read", format!("SELECT '{}' FROM t WHERE id = 1 FOR UPDATE; SELECT 1", tag)),
+        41 => ("multi_with_write", format!("WITH u AS (UPDATE t SET v = 'z' RETURNING id) SELECT '{}' FROM u; SELECT 2", tag)),
         _ => ("write", format!("DELETE FROM t USING u WHERE t.id = u.id AND u.v = '{}'", tag)),
     }
 }
@@ -465,7 +473,17 @@ fn classed_statement(rng: &mut Rng, tag: &str) -> (&'static str, String) {
 pub fn c05(rng: &mut Rng, thorough: bool, idx: u64) -> Spec {
     let replicas = rng.range(1, 2) as usize;
     let nclients = rng.range(1, 3) as u32;
-    let mut cfg = sharded_pool("transaction", nclients + 1, 1, replicas);
+    // a third of the runs: two shards and no shard selected by anybody (default_shard decides);
+    // the role still has to be honoured
+    let nshards = if rng.chance(0.33) { 2 } else { 1 };
+    let mut cfg = sharded_pool("transaction", nclients + 1, nshards, replicas);
+    if nshards > 1 {
+        cfg.pools[0].extra.push(format!("default_shard = \"{}\"", rng.pick(&["random", "shard_0", "shard_1"])));
+    }
+    let auto_key = rng.chance(0.3);
+    if auto_key {
+        cfg.pools[0].extra.push(format!("automatic_sharding_key = \"{}\"", rng.pick(&["data.id", "*.id"])));
+    }
     cfg.set("connect_timeout", 1200);
     cfg.set("healthcheck_timeout", 300);
     cfg.set("ban_time", 1);
@@ -523,6 +541,24 @@ pub fn c05(rng: &mut Rng, thorough: bool, idx: u64) -> Spec {
                     // drivers piggyback the Close of an evicted statement on the next query
                     msgs.push(FrontMsg::C { kind: "S".into(), name: format!("evicted_{}", rng.range(0, 9)) });
                 }
+                if shape == 3 && class != "plain_read" {
+                    // pipelined the other way round: the statement proper first, a plain read last
+                    let t0 = p.tag();
+                    plan.insert(t.clone(), serde_json::json!({"class": class, "extended": true}));
+                    plan.insert(t0.clone(), serde_json::json!({"class": "plain_read", "extended": true}));
+                    msgs.push(FrontMsg::P { name: String::new(), sql: sql.clone(), types: vec![] });
+                    msgs.push(FrontMsg::B { portal: String::new(), stmt: String::new(), fmt: vec![], params: vec![], rfmt: vec![], binary_hex: false });
+                    msgs.push(FrontMsg::E { portal: String::new(), max: 0 });
+                    msgs.push(FrontMsg::P { name: String::new(), sql: format!("SELECT '{}'", t0), types: vec![] });
+                    msgs.push(FrontMsg::B { portal: String::new(), stmt: String::new(), fmt: vec![], params: vec![], rfmt: vec![], binary_hex: false });
+                    msgs.push(FrontMsg::E { portal: String::new(), max: 0 });
+                    msgs.push(FrontMsg::S);
+                    p.send(msgs);
+                    if rng.chance(0.2) {
+                        p.think(rng.range(0, 25));
+                    }
+                    continue;
+                }
                 if shape == 2 {
                     // pipelined: a plain read first, then the statement proper, one Sync
                     let t0 = p.tag();
@@ -553,6 +589,15 @@ pub fn c05(rng: &mut Rng, thorough: bool, idx: u64) -> Spec {
     }
     let hosts = cfg.hosts();
     let mut actions = Vec::new();
+    // every seventh run: the pool is rebuilt by a reload (its size changes) while the clients are connected
+    if idx % 7 == 6 {
+        let mut after = cfg.clone();
+        after.pools[0].users[0].pool_size += 1;
+        let t = rng.range(40, 250);
+        actions.push(ActionSpec { at: When::AtMs { ms: t }, act: Action::SetFile { kind: "data".into(), content: after.render() } });
+        let a = admin_client(500, "main", When::AtMs { ms: t + rng.range(2, 30) }, &["RELOAD"]);
+        clients.push(a);
+    }
     if outage != "none" {
         for h in hosts.iter().filter(|h| (outage == "replicas_down") == (h.role == "replica")) {
             actions.push(ActionSpec { at: When::AtMs { ms: 40 }, act: Action::HostMode { host: h.addr.clone(), mode: "refuse".into() } });
